@@ -21,7 +21,7 @@ BLOCK = 8
 STREAM_ORDER = ['ops', 'guards', 'faults', 'chart', 'cfg']
 RULE = (common.GEN + 'the monitored chart sends events (with delays; in a third of the runs also events without any parameter, so that two sent in one step compare equal) and notifies, in a third of the runs it carries contracts that are checked; listeners read every documented attribute of every meta-event; in a third of the runs a one-shot listener attached in front of the others detaches itself while it is told its k-th meta-event; in a third of the runs the monitored interpreter is a subclass of Interpreter with its own constructor and a property statechart is bound with the default interpreter_klass; in half of the runs the property statecharts arm a far-away timeout on themselves (a pending delayed internal event of their own); listeners: a plain recording callable (attach), two recorders with value equality that compare equal when they are attached, a recording '
         'property statechart (bind_property_statechart, built through interpreter_klass so that it shares a recorder) and a tripwire property '
-        'statechart that becomes final at its k-th meta-event. Run A (no tripwire): the stream both recorders saw must equal the stream derived '
+        'statechart that becomes final at its k-th meta-event. Run A (no tripwire): the stream both recorders saw must equal the stream derived (every `transition processed` of a transition that names an event carries the event the macro step consumed) '
         'from the returned micro steps, the property chart own clock must equal the monitored step time, and the macro steps must equal those '
         'of a run without any listener. Runs B_k, for EVERY k up to the number of meta-events of run A (thorough) or 10 drawn k (quick): the '
         'call in which meta-event k is emitted raises PropertyStatechartError and the monitored probe log equals the prefix of A up to that '
@@ -177,7 +177,9 @@ def derive(r, T):
             for s in m.exited_states:
                 out.append(('state exited', (('state', s),)))
             if m.transition is not None:
-                e = m.event
+                # a transition that names an event is processed with the event the macro step consumed, whichever micro
+                # step it is; an eventless one with none
+                e = r.ms.event if m.transition.event is not None else None
                 out.append(('transition processed', (
                     ('event', None if e is None else (type(e).__name__, e.name, e.data.get('uid'), e.data.get('delay'))),
                     ('source', m.transition.source), ('target', m.transition.target))))
